@@ -31,6 +31,8 @@ STD_BASES = {
   '_ZTISt12system_error': ['_ZTISt13runtime_error'], '_ZTINSt8ios_base7failureB5cxx11E': ['_ZTISt12system_error'],
   '_ZTISt17bad_function_call': ['_ZTISt9exception']}
 
+LIBC_MODELLED = {'strlen', 'memcmp', 'bcmp', 'strcmp', 'strncmp', 'strchr', 'memchr', 'malloc', 'free', 'calloc', 'abort',
+  'isspace', 'isdigit', 'tolower', 'toupper'}
 class Unsupported(Exception): pass
 
 def cid(name):
@@ -45,6 +47,7 @@ class Emitter:
         s.gnames = {}; s.used = set()
         s.typeids = {}
         s.sites = []
+        s.icall_protos = set()
         s.out = []
         s.report = {'functions': {}, 'externals': {}, 'globals_external': [], 'yield_sites': s.sites}
         for n in list(mod.globals) + list(mod.funcs): s.gname(n)
@@ -389,6 +392,8 @@ class Emitter:
                 s.report['externals'][name] = 'model: throws ' + ti
             elif name in o.extern:
                 s.report['externals'][name] = 'harness'
+            elif name in LIBC_MODELLED:
+                s.report['externals'][name] = 'model: tools/vf_libc.c'
             else:
                 s.report['externals'][name] = 'unmodelled (reaching it fails the harness)'
                 stubs.append('%s { VF_UNREACHABLE("reached unmodelled external %s"); %s }' % (
@@ -396,7 +401,7 @@ class Emitter:
         hdr = ['/* generated by ll2c -- do not edit */', '#include "vf_rt.h"'] + s.agg_defs + gdecl + protos
         src = ['#include "%s"' % o.hname] + gdef + [s.emit_exc_matches()] + stubs + bodies
         # agg defs may have been extended while emitting bodies: rebuild header
-        hdr = ['/* generated by ll2c -- do not edit */', '#ifndef LL2C_GEN_H', '#define LL2C_GEN_H', '#include "vf_rt.h"'] + s.agg_defs + gdecl + protos + ['#endif']
+        hdr = ['/* generated by ll2c -- do not edit */', '#ifndef LL2C_GEN_H', '#define LL2C_GEN_H', '#include "vf_rt.h"'] + s.agg_defs + gdecl + protos + sorted(s.icall_protos) + ['#endif']
         s.report['typeids'] = s.typeids
         return '\n'.join(hdr) + '\n', '\n'.join(src) + '\n'
     def proto_named(s, f):
@@ -785,7 +790,13 @@ class FnEmitter:
             if fty.k == 'func': pts = [E.ctype(p) for p in fty.params] + (['...'] if fty.vararg else [])
             else: pts = [E.ctype(a.ty) for a in args]
             cexp = v(callee) if not name else '((char*)&%s)' % fn
-            e = '((%s(*)(%s))(%s))(%s)' % (rt, ', '.join(pts) or 'void', cexp, ', '.join(argv))
+            if not name and E.o.icall_hook and re.search(E.o.icall_hook, s.f.name):
+                # harness-supplied dispatcher (restricts/observes the targets of this indirect call)
+                hn = 'vf_icall_' + '_'.join(cid(x.replace('*', 'p').replace(' ', '')) for x in [rt] + pts)
+                E.icall_protos.add('%s %s(%s);' % (rt, hn, ', '.join(['char*'] + pts)))
+                e = '%s(%s)' % (hn, ', '.join([cexp] + argv))
+            else:
+                e = '((%s(*)(%s))(%s))(%s)' % (rt, ', '.join(pts) or 'void', cexp, ', '.join(argv))
         if R is not None and E.res(ins.ty).k != 'void': s.w('%s = %s;' % (R, e))
         else: s.w('%s;' % e)
         nounwind = False
@@ -874,7 +885,7 @@ def main():
     ap.add_argument('input'); ap.add_argument('-o', dest='out', required=True); ap.add_argument('-H', dest='hdr')
     ap.add_argument('--report'); ap.add_argument('--extern', action='append', default=[])
     ap.add_argument('--keep'); ap.add_argument('--yield', dest='yield_re'); ap.add_argument('--redirect', action='append', default=[])
-    ap.add_argument('--no-nsw', dest='no_nsw')
+    ap.add_argument('--no-nsw', dest='no_nsw'); ap.add_argument('--icall-hook', dest='icall_hook')
     o = ap.parse_args()
     o.extern = set(x for e in o.extern for x in e.split(',') if x)
     o.hname = (o.hdr or re.sub(r'\.c$', '.h', o.out)).split('/')[-1]
